@@ -288,7 +288,10 @@ BINOPS30 = ['||', '!']
 HUGE = {BIG, '9223372036854775808', '1' + '0' * 40, '1e308', 'xs:integer("-9223372036854775809")', '1 div 0e0', 'xs:double("INF")'}
 
 FUNC_ARGS = ['()', '0', '-1', '2', '1.5', '1e0', 'xs:double("NaN")', "''", "'a'", "'http://[x'", '(1, 2)', 'xs:date("2000-01-01")', 'xs:dayTimeDuration("PT0S")', 'true()',
-             '/', '//b', '@id', 'xs:untypedAtomic("x")', 'xs:QName("p:a")', '9223372036854775808', BIG, "'\\'", "'[Y]'", "'(a'", '(%s, 1e0)' % BIG, '(1.5, %s)' % BIG, '(xs:float("INF"), xs:double("-INF"), 1)']
+             '/', '//b', '@id', 'xs:untypedAtomic("x")', 'xs:QName("p:a")', '9223372036854775808', BIG, "'\\'", "'[Y]'", "'(a'", '(%s, 1e0)' % BIG, '(1.5, %s)' % BIG, '(xs:float("INF"), xs:double("-INF"), 1)',
+             # heterogeneous sequences (aggregates, distinct-values, index-of, sort, deep-equal ... compare their items with each other)
+             '(1, xs:untypedAtomic("a"))', '(xs:untypedAtomic("1"), 2.5)', "('a', 1)", '(true(), 1)', '(xs:date("2000-01-01"), 1, xs:dayTimeDuration("PT1S"))', '(1, //b)',
+             '(xs:hexBinary("00"), xs:base64Binary("AA=="))']
 FUNC_ARGS31 = ['map { "a" : 1 }', '[ 1 , 2 ]', 'abs#1', 'function ( $x , $y ) { $x }']
 FUNC_ARGS3 = ['()', '0', "'a'", '(1, 2)', '/', 'true()', "''"]
 NS_PREFIX = {'http://www.w3.org/2005/xpath-functions/math': 'math', 'http://www.w3.org/2005/xpath-functions/map': 'map',
